@@ -413,7 +413,7 @@ def write_evidence(mod, pid, tier, seed_value, results, replays_run, kf_lines, n
         edir = os.path.join(tempfile.gettempdir(), "verif-scratch-evidence")
     os.makedirs(edir, exist_ok=True)
     path = os.path.join(edir, f"{pid}.json")
-    tmp = path + ".tmp"
+    tmp = f"{path}.{os.getpid()}.tmp"             # unique: concurrent scratch runs (tools/selftest.py) share the directory
     with open(tmp, "w") as f:
         json.dump(doc, f, indent=1)
         f.write("\n")
